@@ -16,6 +16,7 @@ import (
 	"time"
 
 	sentinel "github.com/alibaba/sentinel-golang/api"
+	"github.com/alibaba/sentinel-golang/core/base"
 	"github.com/alibaba/sentinel-golang/core/circuitbreaker"
 	"github.com/alibaba/sentinel-golang/core/flow"
 	"github.com/alibaba/sentinel-golang/core/hotspot"
@@ -36,8 +37,9 @@ func (c *clock) CurrentTimeMillis() uint64 { return c.ns / 1e6 }
 func (c *clock) CurrentTimeNano() uint64   { return c.ns }
 
 type Interp struct {
-	clk *clock
-	rec [][]string // the ops of phase A that are not reloads: `phase B` runs them again
+	clk  *clock
+	rec  [][]string                     // the ops of phase A that are not reloads: `phase B` runs them again
+	live map[uint64]*base.SentinelEntry // entries in flight (`in h …` … `out h …`)
 }
 
 const baseMs = 1900000000000
@@ -59,7 +61,8 @@ func (it *Interp) Reset() {
 }
 
 func (it *Interp) clear() {
-	it.clk.ns = baseMs * 1e6 // every phase starts at the same virtual time
+	it.live = map[uint64]*base.SentinelEntry{} // entries still in flight are simply dropped with their phase
+	it.clk.ns = baseMs * 1e6                   // every phase starts at the same virtual time
 	_ = flow.ClearRules()
 	_ = circuitbreaker.ClearRules()
 	_ = hotspot.ClearRules()
@@ -149,6 +152,28 @@ func hotRules(arg string) []*hotspot.Rule {
 	return rs
 }
 
+func blockText(b *base.BlockError) string {
+	id := "-"
+	switch r := b.TriggeredRule().(type) {
+	case *flow.Rule:
+		id = r.ID
+	case *circuitbreaker.Rule:
+		id = r.Id
+	case *hotspot.Rule:
+		id = r.ID
+	}
+	kind := "other"
+	switch b.BlockType().String() {
+	case "BlockTypeFlowControl":
+		kind = "flow"
+	case "BlockTypeCircuitBreaking":
+		kind = "cb"
+	case "BlockTypeHotSpotParamFlow":
+		kind = "hot"
+	}
+	return fmt.Sprintf("block %s %s", kind, id)
+}
+
 func (it *Interp) Step(t []string, op string) string {
 	if t[0] == "phase" {
 		// the same traffic once more, from scratch, without the reloads
@@ -156,7 +181,7 @@ func (it *Interp) Step(t []string, op string) string {
 		var out []string
 		for _, o := range it.rec {
 			r := it.step(o, strings.Join(o, " "))
-			if o[0] == "e" {
+			if o[0] == "e" || o[0] == "in" {
 				out = append(out, r)
 			}
 		}
@@ -207,6 +232,32 @@ func (it *Interp) step(t []string, op string) string {
 			return "err"
 		}
 		return ""
+	case "in":
+		it.clk.slept = 0
+		var opts []sentinel.EntryOption
+		if t[3] != "0" {
+			opts = append(opts, sentinel.WithArgs(int(vh.U(t[3]))))
+		}
+		e, b := sentinel.Entry(resName(vh.U(t[2])), opts...)
+		if b != nil {
+			return blockText(b)
+		}
+		it.live[vh.U(t[1])] = e
+		if it.clk.slept > 0 {
+			return fmt.Sprintf("pass wait %d", int64(it.clk.slept))
+		}
+		return "pass"
+	case "out":
+		e := it.live[vh.U(t[1])]
+		if e == nil {
+			return "none"
+		}
+		delete(it.live, vh.U(t[1]))
+		if t[2] != "0" {
+			sentinel.TraceError(e, errTraffic)
+		}
+		e.Exit()
+		return "done"
 	case "e":
 		it.clk.slept = 0
 		var opts []sentinel.EntryOption
@@ -219,25 +270,7 @@ func (it *Interp) step(t []string, op string) string {
 			it.clk.ns += vh.U(t[4]) * 1e6
 		}
 		if b != nil {
-			id := "-"
-			switch r := b.TriggeredRule().(type) {
-			case *flow.Rule:
-				id = r.ID
-			case *circuitbreaker.Rule:
-				id = r.Id
-			case *hotspot.Rule:
-				id = r.ID
-			}
-			kind := "other"
-			switch b.BlockType().String() {
-			case "BlockTypeFlowControl":
-				kind = "flow"
-			case "BlockTypeCircuitBreaking":
-				kind = "cb"
-			case "BlockTypeHotSpotParamFlow":
-				kind = "hot"
-			}
-			return fmt.Sprintf("block %s %s", kind, id)
+			return blockText(b)
 		}
 		if t[2] != "0" {
 			sentinel.TraceError(e, errTraffic)
